@@ -33,7 +33,7 @@ COMPONENTS = {
 }
 ASSUMPTIONS = ["reference = all index combinations filtered by order-isomorphism (ref/patterns.py)"]
 EXPECTED_PROBES = ["memo_hit_other_target", "interleaved_same_object", "memo_flush", "shared_to_standard_object",
-                   "copy_after_use", "empty_pattern", "pattern_longer_than_target", "colours", "occurrence_ends_at_last_index"]
+                   "copy_after_use", "empty_pattern", "pattern_longer_than_target", "colours", "occurrence_ends_at_last_index", "interrupted_call"]
 
 
 def plan(tier):
@@ -181,6 +181,10 @@ def gen_case(rng, tier):
             else:
                 op = {"op": kind, "patt": pi, "target": target()}
             ops.append(op)
+            if rng.random() < 0.06:
+                # an earlier search with the same object that was interrupted part-way
+                ops.insert(len(ops) - 1, {"op": "interrupted_search", "patt": pi, "target": target(),
+                                          "at": int(10 ** rng.uniform(0, 2.7))})
         else:
             rr = rng.random()
             if rr < 0.35:
@@ -383,6 +387,20 @@ def execute(case):
                 if got is not want:
                     hist.violate("wrong_answer", {"op": kind}, f"{op}: returned {got!r}, the listing says {want}")
                 abst.append((kind, pi))
+            elif kind == "interrupted_search":
+                pi = op["patt"]
+                if pi >= len(pool):
+                    continue
+                import os  # pylint: disable=import-outside-toplevel
+
+                target = pm.Perm(op["target"])
+                status, _r, _n = histsim.run_interruptible(lambda p=pool[pi], t=target: list(p.occurrences_in(t)), op["at"],
+                                                           [os.path.join(core.repo_dir(), "permuta") + os.sep])
+                if status == "interrupted":
+                    out.fault("interrupted_call")
+                    out.probe("interrupted_call")
+                    searched.setdefault(pi, set()).add(tuple(op["target"]))
+                hist.log.add("interrupted_search", pi, status)
             elif kind == "memo_flush":
                 pi = op["patt"]
                 if pi < len(pool) and hasattr(pool[pi], "_cached_pattern_details"):
